@@ -30,15 +30,27 @@ class ArrayDimRange(Stmt):
     def __repr__(self):
         return f'<Range {self.lbound} to {self.ubound}>'
 
+    @staticmethod
+    def _static_bound(bound):
+        assert bound.is_const
+        try:
+            return int(round(bound.eval()))
+        except (OverflowError, ZeroDivisionError, TypeError,
+                ValueError):
+            # a constant bound that overflows, divides by zero or is
+            # not a number
+            raise CompileError(
+                EC.INVALID_DIMENSIONS,
+                'Array bound cannot be evaluated',
+                node=bound)
+
     @property
     def static_lbound(self):
-        assert self.lbound.is_const
-        return int(round(self.lbound.eval()))
+        return self._static_bound(self.lbound)
 
     @property
     def static_ubound(self):
-        assert self.ubound.is_const
-        return int(round(self.ubound.eval()))
+        return self._static_bound(self.ubound)
 
     @property
     def is_const(self):
